@@ -64,7 +64,9 @@ type internalApp struct {
 }
 
 type up4ApplicationFilter struct {
-	appIP     uint32
+	appIP uint32
+	// appIPMask distinguishes prefixes of different length with the same network address
+	appIPMask uint32
 	appL4Port portRange
 	appProto  uint8
 }
@@ -168,11 +170,13 @@ func toUP4ApplicationFilter(p pdr) up4ApplicationFilter {
 	if p.IsUplink() {
 		appFilter = up4ApplicationFilter{
 			appIP:     p.appFilter.dstIP,
+			appIPMask: p.appFilter.dstIPMask,
 			appL4Port: p.appFilter.dstPortRange,
 		}
 	} else if p.IsDownlink() {
 		appFilter = up4ApplicationFilter{
 			appIP:     p.appFilter.srcIP,
+			appIPMask: p.appFilter.srcIPMask,
 			appL4Port: p.appFilter.srcPortRange,
 		}
 	}
